@@ -85,6 +85,7 @@ Clauses(e) ==
     [] e.op = "quant.index" -> {"C03.index"}
     [] e.op = "quant.data" -> {"C03.no_panic", "C03.data_outcome", "C03.entry." \o e.entry, "C03.type." \o e.ty}
                               \cup (IF e.dfmt = "iota" THEN {"C03.distinct_values_shuffled"} ELSE {})
+                              \cup (IF e.entry = "max_n" /\ e.n > 1024 THEN {"C03.capacity_above_default"} ELSE {})
                               \cup (IF e.out.tag = "ok" THEN {"C03.data_elements"} ELSE {})
 
 VARIABLES l, cov, nbad
